@@ -153,7 +153,7 @@ def gen_function(contract, contracts, known=()):
             except X.PyRaise as e:
                 ename = e.exc.cls.name if isinstance(e.exc, X.Obj) else str(e.exc)
                 allowed = None
-                for exc_name, cond in contract.raises.items():
+                for exc_name, cond in list(contract.raises.items()) + list(contract.may_raise.items()):
                     if _exc_is(interp, e.exc, exc_name):
                         allowed = (exc_name, cond)
                         break
